@@ -93,8 +93,11 @@ func c18Begin(info *BuiltinFunctionInfo) {
 	verifAllowOpaqueCut()
 	// mexp: one fork per exponent bit (2^64 paths) — boundary palette there as well; its exactness for
 	// bounded exponents is C07's
+	// "*" and "**": the overflow tests are 128-bit products, decided for all int64 pairs in C07 with a
+	// longer cap; under this check's short cap the query is load-sensitive, so boundary palette here
 	c18ConcreteInts = info.class == FUNC_CLASS_TIME || info.name == "mexp" || info.name == "mmul" ||
-		info.name == "percentile" || info.name == "percentiles" || info.name == "median"
+		info.name == "percentile" || info.name == "percentiles" || info.name == "median" ||
+		info.name == "*" || info.name == "**"
 }
 
 // the real table, as built once by the package initialiser
